@@ -96,12 +96,10 @@ Theorem C16_qua_order : forall cfg ty q al es size align ox oy oz ow offs vp len
 Proof. exact qua_order. Qed.
 (* the documented sizes of the aligned float types, read off the contract *)
 Example C16_aligned_float_sizes : vec_size 3 true 4 = 16 /\ vec_size 4 true 4 = 16 /\ vec_size 2 true 4 = 8 /\ vec_size 3 false 4 = 12 /\
-  (forall al, vec_align_ok 3 true 4 al = true -> al = 16) /\ (forall al, vec_align_ok 2 true 4 al = true -> al = 8).
+  (forall cfg al, vec_align_ok cfg "f32" 3 true 4 al = true -> al = 16) /\ (forall cfg al, vec_align_ok cfg "f32" 2 true 4 al = true -> al = 8) /\
+  (forall cfg al, vec_align_ok cfg "i64" 4 true 8 al = true -> al = 32).
 Proof.
-  assert (G : forall sz al, 0 < sz <= 16 -> (0 <? al) && (sz mod al =? 0) && (Z.min 16 sz <=? al) = true -> al = sz).
-  { intros sz al Hs H. apply andb_true_iff in H as [H H3]. apply andb_true_iff in H as [H1 H2]. apply Z.ltb_lt in H1. apply Z.eqb_eq in H2. apply Z.leb_le in H3.
-    apply Z.mod_divide in H2; [|lia]. apply Z.divide_pos_le in H2; lia. }
-  repeat split; try reflexivity; intros al H; apply (G _ al) in H; cbn in *; lia.
+  repeat split; try reflexivity; intros cfg al H; unfold vec_align_ok, sse_pair in H; cbn in H; rewrite ?andb_false_r, ?orb_false_r in H; apply Z.eqb_eq in H; exact H.
 Qed.
 Print Assumptions C16_default.
 Print Assumptions C16_intrinsics_avx2.
